@@ -50,49 +50,38 @@ def bound(self_first, args, kwargs):
     return me, a, b, c
 
 
+FALSY = {"none": None, "zero": 0, "str": "", "empty": ()}
+
+
 def make_target(cfg, st):
-    """returns (get_callable(i), instances dict, cls or None)"""
+    """ONE decorator object applied to cfg["nf"] functions.  returns (get_callable(g, i), instances dict, cls or None)"""
     deco, form, block = cfg["deco"], cfg["form"], cfg["body"] == "block"
-    if deco == "lazy":
-        if block:
-            def body():
-                v = st.bump((0, 0, 0, 0))
-                armed, st.armed = st.armed, False
-                yield DebugBatchItem()
-                if armed:
-                    raise VErr(v)
-                return v
-        else:
-            def body():
-                v = st.bump((0, 0, 0, 0))
-                armed, st.armed = st.armed, False
-                if armed:
-                    raise VErr(v)
-                return v
-        fn = alazy_constant(ttl=cfg["ttl"])(asynq_deco()(body))
-        return (lambda i: fn), {}, None
+    nf, ret = cfg.get("nf", 1), cfg.get("ret", "tuple")
 
     def finish(v):
-        if v[1] == 2:
+        """what the body does with its fresh value v = (g, i, a, b, c, n)"""
+        if v[2] == 2:
             raise VErr(v)
-        return v
+        return v if ret == "tuple" else FALSY[ret]
+
+    if deco == "lazy":
+        wrap = alazy_constant(ttl=cfg["ttl"])          # one decorator object ...
+        fns = {}
+        for g in range(1, nf + 1):                     # ... applied to nf functions
+            fns[g] = wrap(asynq_deco()(_lazy_body(st, g, block, ret)))
+        return (lambda g, i: fns[g]), {}, None
 
     if deco == "lru" and form == "fn":
-        if block:
-            def f(a, b=0, *, c=0):
-                v = st.bump((0, a, b, c))
-                yield DebugBatchItem()
-                return finish(v)
-        else:
-            def f(a, b=0, *, c=0):
-                return finish(st.bump((0, a, b, c)))
         key_fn = None
         if cfg["keyfn"]:
             def key_fn(args, kwargs):
                 _, a, b, c = bound(False, args, kwargs)
                 return (a, c)
-        fn = alru_cache(maxsize=cfg["maxsize"], key_fn=key_fn)(asynq_deco()(f))
-        return (lambda i: fn), {}, None
+        wrap = alru_cache(maxsize=cfg["maxsize"], key_fn=key_fn)
+        fns = {}
+        for g in range(1, nf + 1):
+            fns[g] = wrap(asynq_deco()(_plain_fn(st, g, block, finish)))
+        return (lambda g, i: fns[g]), {}, None
 
     if deco == "lru":
         key_fn = None
@@ -104,28 +93,58 @@ def make_target(cfg, st):
     else:
         wrap = acached_per_instance()
 
-    if block:
-        class K(object):
-            def __init__(self, i):
-                self.i = i
+    class K(object):
+        def __init__(self, i):
+            self.i = i
 
-            @wrap
-            @asynq_deco()
-            def m(self, a, b=0, *, c=0):
-                v = st.bump((self.i, a, b, c))
-                yield DebugBatchItem()
-                return finish(v)
-    else:
-        class K(object):
-            def __init__(self, i):
-                self.i = i
-
-            @wrap
-            @asynq_deco()
-            def m(self, a, b=0, *, c=0):
-                return finish(st.bump((self.i, a, b, c)))
+        m1 = wrap(asynq_deco()(_method(st, 1, block, finish)))
+        m2 = wrap(asynq_deco()(_method(st, 2, block, finish))) if nf == 2 else None
     objs = {1: K(1), 2: K(2)}
-    return (lambda i: objs[i].m), objs, K
+    return (lambda g, i: getattr(objs[i], "m%d" % g)), objs, K
+
+
+def _lazy_body(st, g, block, ret):
+    def done(v, armed):
+        if armed:
+            raise VErr(v)
+        return v if ret == "tuple" else FALSY[ret]
+
+    if block:
+        def body():
+            v = st.bump((g, 0, 0, 0, 0))
+            armed, st.armed = st.armed, False
+            yield DebugBatchItem()
+            return done(v, armed)
+    else:
+        def body():
+            v = st.bump((g, 0, 0, 0, 0))
+            armed, st.armed = st.armed, False
+            return done(v, armed)
+    return body
+
+
+def _plain_fn(st, g, block, finish):
+    if block:
+        def f(a, b=0, *, c=0):
+            v = st.bump((g, 0, a, b, c))
+            yield DebugBatchItem()
+            return finish(v)
+    else:
+        def f(a, b=0, *, c=0):
+            return finish(st.bump((g, 0, a, b, c)))
+    return f
+
+
+def _method(st, g, block, finish):
+    if block:
+        def m(self, a, b=0, *, c=0):
+            v = st.bump((g, self.i, a, b, c))
+            yield DebugBatchItem()
+            return finish(v)
+    else:
+        def m(self, a, b=0, *, c=0):
+            return finish(st.bump((g, self.i, a, b, c)))
+    return m
 
 
 def spell(s):
@@ -143,10 +162,22 @@ def spell(s):
     return args, kwargs
 
 
+def enc(v):
+    """what the caller got, in the vocabulary of Cache.tla (Shown)"""
+    if v is None:
+        return ["val", "none"]
+    if isinstance(v, tuple):
+        return ["val"] + list(v) if len(v) == 6 else (["val", "empty"] if v == () else ["odd", repr(v)])
+    if type(v) is int and v == 0:
+        return ["val", "zero"]
+    if type(v) is str and v == "":
+        return ["val", "str"]
+    return ["odd", repr(v)]
+
+
 def outcome(thunk):
     try:
-        v = thunk()
-        return ["val"] + list(v) if isinstance(v, tuple) else ["odd", repr(v)]
+        return enc(thunk())
     except VErr as e:
         return ["err"] + list(e.v)
     except Exception as e:
@@ -156,8 +187,7 @@ def outcome(thunk):
 @asynq_deco()
 def catcher(fn, args, kwargs):
     try:
-        v = yield fn.asynq(*args, **kwargs)
-        return ["val"] + list(v) if isinstance(v, tuple) else ["odd", repr(v)]
+        return enc((yield fn.asynq(*args, **kwargs)))
     except VErr as e:
         return ["err"] + list(e.v)
     except Exception as e:
@@ -171,7 +201,7 @@ def together(thunks):
 
 def table_size(cls):
     """number of per-instance caches the decorator holds, if the implementation exposes it (else None)"""
-    for o in (cls.__dict__.get("m"), getattr(cls.__dict__.get("m"), "decorator", None), getattr(cls, "m", None)):
+    for o in (cls.__dict__.get("m1"), getattr(cls.__dict__.get("m1"), "decorator", None), getattr(cls, "m1", None)):
         t = getattr(o, "__acached_per_instance_cache__", None)
         if t is not None:
             return len(t)
@@ -191,18 +221,18 @@ def run_history(cfg, ops):
         before = st.runs
         if op in ("call", "lcall"):
             if op == "lcall":
-                fn = get(0)
+                fn = get(o["arg"], 0)
                 r = [outcome(lambda: fn())]
             else:
                 s = o["calls"][0]
                 args, kwargs = spell(s)
-                fn = get(s["i"])
+                fn = get(s["g"], s["i"])
                 r = [outcome(lambda: fn(*args, **kwargs))]
         elif op == "pair":
             thunks = []
             for s in o["calls"]:
                 args, kwargs = spell(s)
-                thunks.append((get(s["i"]), args, kwargs))
+                thunks.append((get(s["g"], s["i"]), args, kwargs))
             r = [list(x) for x in together(thunks)]
         elif op == "drop":
             dead_id = id(objs[2])
@@ -224,7 +254,7 @@ def run_history(cfg, ops):
             cand = spare = None           # objs[2] must be the only reference
             r = [["ok"]]
         elif op == "dirty":
-            get(0).dirty()
+            get(o["arg"], 0).dirty()
             r = [["ok"]]
         elif op == "tick":
             CLOCK[0] += o["arg"]
